@@ -263,11 +263,19 @@ static long stream_send(const std::shared_ptr<Sock>& s, const void* buf, size_t 
         }
         return fail(EPIPE);
     };
+    // Blocking sockets behave like Linux: send() returns only when every byte is queued (or an
+    // error interrupts it); while it waits for buffer space the socket lock is released, so another
+    // thread's send() on the same socket can slip its bytes in between. Non-blocking sockets take
+    // what fits (optionally a seeded prefix of it) and return.
+    const bool nb = s->nonblock || (flags & MSG_DONTWAIT);
+    std::size_t total = 0;
+    const auto* src = static_cast<const std::uint8_t*>(buf);
     for (;;) {
-        if (s->closed) return fail(EBADF);
-        if (s->wr_shut) return raise_pipe();
+        if (s->closed) return total ? static_cast<long>(total) : fail(EBADF);
+        if (s->wr_shut) return total ? static_cast<long>(total) : raise_pipe();
         Pipe& tx = *s->tx;
         if (pipe_rst_visible(tx)) {
+            if (total) return static_cast<long>(total);
             if (!tx.rst_reported_to_writer && !s->recv_rst_reported) {
                 tx.rst_reported_to_writer = true;
                 return fail(ECONNRESET);
@@ -275,6 +283,7 @@ static long stream_send(const std::shared_ptr<Sock>& s, const void* buf, size_t 
             return raise_pipe();
         }
         if (writer_knows_gone(tx)) {
+            if (total) return static_cast<long>(total);
             // peer closed cleanly: the first send is accepted (and provokes the RST), later ones fail
             if (tx.sends_after_gone++ == 0) {
                 K.stats.bytes_tx += len;
@@ -287,25 +296,21 @@ static long stream_send(const std::shared_ptr<Sock>& s, const void* buf, size_t 
         if (len == 0) return 0;
         const std::size_t space = tx.bytes < tx.cap ? tx.cap - tx.bytes : 0;
         if (space == 0) {
-            if (s->nonblock || (flags & MSG_DONTWAIT)) { ++K.stats.eagain; return fail(EAGAIN); }
+            if (nb) { if (total) return static_cast<long>(total); ++K.stats.eagain; return fail(EAGAIN); }
             auto txp = s->tx;
             auto sp = s;
             const std::int64_t dl = s->sndtimeo > 0 ? K.now + s->sndtimeo : INT64_MAX;
             block([txp, sp] { return sp->closed || sp->wr_shut || txp->bytes < txp->cap || (txp->rst && txp->rst_at <= K.now) ||
                                      (txp->reader_gone && txp->reader_gone_at <= K.now); },
                   std::min(dl, stream_next_time(*s)));
-            if (s->sndtimeo > 0 && K.now >= dl) return fail(EAGAIN);
+            if (s->sndtimeo > 0 && K.now >= dl) return total ? static_cast<long>(total) : fail(EAGAIN);
             continue;
         }
-        std::size_t n = std::min(space, len);
-        if (n > 1 && K.rng.below(1024) < K.knobs.short_io_per_1024) {
-            n = 1 + static_cast<std::size_t>(K.rng.below(n));
-            if (n < len) ++K.stats.short_writes;
-        } else if (n < len) {
-            ++K.stats.short_writes;
-        }
+        std::size_t n = std::min(space, len - total);
+        if (nb && n > 1 && K.rng.below(1024) < K.knobs.short_io_per_1024) n = 1 + static_cast<std::size_t>(K.rng.below(n));
+        if (n < len - total) ++K.stats.short_writes;
         Seg seg;
-        seg.data.assign(static_cast<const std::uint8_t*>(buf), static_cast<const std::uint8_t*>(buf) + n);
+        seg.data.assign(src + total, src + total + n);
         if (K.tap_on || K.mutator) {
             TapSegment t{tx.from_pid, tx.to_pid, tx.from_port, tx.to_port, seg.data, K.now};
             if (K.mutator) { K.mutator(t); seg.data = t.bytes; }
@@ -320,9 +325,10 @@ static long stream_send(const std::shared_ptr<Sock>& s, const void* buf, size_t 
             tx.q.push_back(std::move(seg));
         }
         K.stats.bytes_tx += n;
+        total += n;
         hash_event(0x5e4d, static_cast<std::uint64_t>(s->fd), n);
-        tracef("send fd %d -> %zu/%zu", s->fd, n, len);
-        return static_cast<long>(n);
+        tracef("send fd %d -> %zu/%zu%s", s->fd, total, len, total < len && !nb ? " (waiting for space)" : "");
+        if (nb || total >= len) return static_cast<long>(total);
     }
 }
 
@@ -359,6 +365,10 @@ static long stream_recv(const std::shared_ptr<Sock>& s, void* buf, size_t len, i
             return static_cast<long>(done);
         }
         if (s->rd_shut) return 0;
+        if (pipe_rst_visible(rx)) {
+            // data that had arrived before the reset was readable above; anything still in flight is lost
+            while (!rx.q.empty() && rx.q.back().at > K.now) { rx.bytes -= rx.q.back().data.size() - rx.q.back().off; rx.q.pop_back(); }
+        }
         if (pipe_rst_visible(rx) && rx.bytes == 0) {
             if (!s->recv_rst_reported) { s->recv_rst_reported = true; ++K.stats.resets; tracef("recv fd %d -> ECONNRESET", s->fd); return fail(ECONNRESET); }
             return 0;
@@ -471,6 +481,16 @@ static std::int64_t sock_next_time(const Sock& s) {
     if (s.kind == Sock::Stream) return stream_next_time(s);
     if (s.kind == Sock::Udp && !s.inbox.empty() && s.inbox.front().at > K.now) return s.inbox.front().at;
     return INT64_MAX;
+}
+
+std::int64_t net_next_event_time() {
+    std::int64_t t = INT64_MAX;
+    for (auto& f : K.fds) {
+        if (!f) continue;
+        t = std::min(t, sock_next_time(*f));
+        for (auto& pending : f->backlog) t = std::min(t, sock_next_time(*pending));
+    }
+    return t;
 }
 
 }  // namespace sk::detail
